@@ -47,6 +47,9 @@ pub enum Bad {
     UpdateUnknownWhereColumn(u16),
     UpdateInvalidValue(u16, u16, u8),
     UpdateKeyCollision(u16),
+    /// assign "" to the key of one row while another row's key is null / empty
+    /// (the two are one key); 0 the other row was inserted with "", 1 with null
+    UpdateKeyToEmpty(u8),
     DeleteUnknownTable,
     DeleteUnknownWhereColumn(u16),
     SelectUnknown(u16, u8),
@@ -292,6 +295,11 @@ fn perform(run: &mut Run, bad: &Bad) -> Option<(String, std::io::Result<()>)> {
             }
             Some((format!("update({t} set every key column to the first row's key)"), run.pkg().update_rows(q)))
         }
+        Bad::UpdateKeyToEmpty(_) => {
+            // the table was set up by `prepare`
+            let q = Update::table("EmptyKey").set("k", Value::Str(String::new())).set("v", Value::from("renamed")).with(Expr::col("k").eq(Expr::string("beta")));
+            Some(("update(EmptyKey set k = '', v = 'renamed' where k = 'beta') while a row with an empty key exists".into(), run.pkg().update_rows(q)))
+        }
         Bad::DeleteUnknownTable => Some(("delete(unknown table)".into(), run.pkg().delete_rows(Delete::from("NoSuchTable")))),
         Bad::DeleteUnknownWhereColumn(sel) => {
             let t = table_at(*sel)?;
@@ -352,6 +360,19 @@ pub fn check_case(case: &Case, st: &mut Stats) -> Check {
             Err(f) if f.sig.contains("unexpected-error") || f.sig.contains("reopen-") => return Ok(()), // other properties' business
             Err(f) => return Err(f),
         }
+    }
+    if let Bad::UpdateKeyToEmpty(how) = &case.bad {
+        // state needed by this call: a table whose key column holds the empty key
+        let first = if how % 2 == 0 { Value::Str(String::new()) } else { Value::Null };
+        let setup = (|| -> std::io::Result<()> {
+            run.pkg().create_table("EmptyKey", vec![Column::build("k").primary_key().nullable().string(0), Column::build("v").nullable().string(0)])?;
+            run.pkg().insert_rows(Insert::into("EmptyKey").row(vec![first, Value::from("first label")]).row(vec![Value::from("beta"), Value::from("second label")]))
+        })();
+        if setup.is_err() {
+            st.class("not-applicable");
+            return Ok(());
+        }
+        run.trace.push("create_table(EmptyKey); insert(EmptyKey, ['' | null, 'first label'], ['beta', 'second label'])".into());
     }
     let trace = run.trace_text();
     run.pkg().flush().map_err(|e| Fail::new(format!("{P} unexpected-error op=Flush"), format!("{e}; history: {trace}")))?;
@@ -431,6 +452,7 @@ fn bad_strategy() -> impl Strategy<Value = Bad> {
         2 => any::<u16>().prop_map(Bad::UpdateUnknownWhereColumn),
         5 => (any::<u16>(), any::<u16>(), any::<u8>()).prop_map(|(a, b, c)| Bad::UpdateInvalidValue(a, b, c)),
         4 => any::<u16>().prop_map(Bad::UpdateKeyCollision),
+        3 => any::<u8>().prop_map(Bad::UpdateKeyToEmpty),
         1 => Just(Bad::DeleteUnknownTable),
         2 => any::<u16>().prop_map(Bad::DeleteUnknownWhereColumn),
         2 => (any::<u16>(), any::<u8>()).prop_map(|(a, b)| Bad::SelectUnknown(a, b)),
